@@ -218,7 +218,12 @@ func coerceECDSAToSecp256k1(pubKey crypto.PubKey) (crypto.PubKey, error) {
 		return nil, errors.New("failed to assert type for secp256k1 coersion")
 	}
 
-	ecdsaPubBytes := append([]byte{0x04}, append(ecdsaPub.X.Bytes(), ecdsaPub.Y.Bytes()...)...)
+	// uncompressed SEC1 point: both coordinates left-padded to the size of the field
+	byteLen := (ecdsaPub.Curve.Params().BitSize + 7) / 8
+	ecdsaPubBytes := make([]byte, 1+2*byteLen)
+	ecdsaPubBytes[0] = 0x04
+	ecdsaPub.X.FillBytes(ecdsaPubBytes[1 : 1+byteLen])
+	ecdsaPub.Y.FillBytes(ecdsaPubBytes[1+byteLen:])
 
 	secp256k1Pub, err := secp256k1.ParsePubKey(ecdsaPubBytes)
 	if err != nil {
